@@ -86,7 +86,8 @@ pub fn cases(tier: &str) -> Vec<Value> {
                     }
                     for v in variants {
                         let routes: Vec<Value> = ro.iter().zip(v.iter()).map(|(bi, sufs)| json!({"block": bi, "nx": types & (1 << bi) != 0, "suffixes": sufs})).collect();
-                        out.push(json!({"engine":"enet","check":"c15","routes":routes}));
+                        let k = out.len();
+                        out.push(json!({"engine":"enet","check":"c15","routes":routes,"all_types": k % 8 == 0}));
                     }
                 }
             }
@@ -367,11 +368,26 @@ pub fn run_case(case: &Value) -> CaseResult {
     let mut res = CaseResult::ok("");
     let mut classes: std::collections::BTreeSet<String> = Default::default();
     let mut qn = 0u16;
-    'outer: for name in NAMES {
+    // the route is a function of the NAME alone: every query type takes the same one (A and DS --
+    // the one type whose answer lives in the parent zone -- for every table; the others for every
+    // 8th table of the enumeration)
+    let mut plan: Vec<(&str, bool, u16)> = vec![];
+    for name in NAMES {
         for rd_flag in [true, false] {
+            plan.push((name, rd_flag, rd::T_A));
+        }
+        plan.push((name, true, 43));
+        if case["all_types"].as_bool().unwrap_or(false) {
+            for t in [rd::T_NS, rd::T_SOA, rd::T_CNAME, rd::T_PTR, rd::T_TXT, rd::T_AAAA, 48u16, 46, 65, 257, 65280] {
+                plan.push((name, true, t));
+            }
+        }
+    }
+    'outer: for (name, rd_flag, qtype) in plan {
+        {
             qn += 1;
             let exp = expected_route(&routes, name);
-            let q = rd::query(0x6000 + qn, &rd::name(name), rd::T_A, 1, rd_flag, None);
+            let q = rd::query(0x6000 + qn, &rd::name(name), qtype, 1, rd_flag, None);
             let qb = rd::encode(&q, false);
             let before: Vec<usize> = rig.upstreams.iter().map(|u| u.tcp_frames_total() + u.udp_rx.len()).collect();
             let mut c = match TcpClient::connect(Some("::1".parse().unwrap()), rig.listen_addr(0)) {
@@ -415,9 +431,9 @@ pub fn run_case(case: &Value) -> CaseResult {
                 }
             }
             let got: Vec<usize> = rig.upstreams.iter().enumerate().map(|(i, u)| u.tcp_frames_total() + u.udp_rx.len() - before[i]).collect();
-            let sub = json!({"engine":"enet","check":"c15","routes":routes,"name":name,"rd":rd_flag});
+            let sub = json!({"engine":"enet","check":"c15","routes":routes,"name":name,"rd":rd_flag,"type":qtype,"all_types":case["all_types"]});
             let table: Vec<String> = routes.iter().map(|r| format!("{}{:?}", if r["nx"].as_bool().unwrap() { "nx" } else { "fwd" }, r["suffixes"].as_array().unwrap().iter().map(|s| SUFFIXES[s.as_u64().unwrap() as usize]).collect::<Vec<_>>())).collect();
-            let mk = |oracle: &str, what: String| Violation::new(oracle, format!("table {:?}, query '{}' rd={}: {}", table, name, rd_flag, what), sub.clone()).sig("oracle", oracle);
+            let mk = |oracle: &str, what: String| Violation::new(oracle, format!("table {:?}, query '{}' type {} rd={}: {}", table, name, qtype, rd_flag, what), sub.clone()).sig("oracle", oracle).sig("qtype", if qtype == 1 { "A" } else { "other" });
             let Some(rb) = reply else {
                 res.violations.push(mk("no-reply", "no reply".into()));
                 classes.insert("no-reply".into());
@@ -490,7 +506,8 @@ pub fn run(tier: &str, replay: Option<Value>) -> ! {
         if let Some(n) = case["name"].as_str() {
             let n = n.to_string();
             let rdv = case["rd"].as_bool();
-            rep.violations.retain(|v| v.case["name"].as_str() == Some(&n) && v.case["rd"].as_bool() == rdv);
+            let ty = case["type"].as_u64();
+            rep.violations.retain(|v| v.case["name"].as_str() == Some(&n) && v.case["rd"].as_bool() == rdv && (ty.is_none() || v.case["type"].as_u64() == ty));
         }
         rep.finish();
     }
@@ -499,7 +516,7 @@ pub fn run(tier: &str, replay: Option<Value>) -> ! {
     let classes: Vec<String> = agg.stats_sum.keys().filter_map(|k| k.strip_prefix("class:").map(|s| s.to_string())).collect();
     rep.cov("evaluations", q);
     rep.cov("distinct_nontrivial", agg.executions);
-    rep.cov("rule", "route tables: every subset of <=4 of the 6 suffixes {'',com,example.com,a.example.com,org,Example.COM} (thorough: 7, + b.a.example.com) partitioned into <=3 routes, every forward/forge-nxdomain typing, every route order and every suffix order inside each route; each table is served by a live DnsService with one scripted upstream per forward route and asked 10 names x RD{1,0} over TCP; octet folding: for every printable octet c the table {forward 'x<c>y.fold', forge-nxdomain 'fold'} asked for x<d>y.fold with d in {c, c^0x20, c+-1, upper, lower, c|0x80} (thorough: all 256 octets), forwarded iff d equals c up to the case of an ASCII letter; histories: nested suffixes on two servers, an enclosing name first answered by the shorter route's server (NXDOMAIN+SOA / NODATA+SOA / address), then three names under the longer route, which must reach the longer route's server. evaluations = queries; distinct_nontrivial = distinct written tables");
+    rep.cov("rule", "route tables: every subset of <=4 of the 6 suffixes {'',com,example.com,a.example.com,org,Example.COM} (thorough: 7, + b.a.example.com) partitioned into <=3 routes, every forward/forge-nxdomain typing, every route order and every suffix order inside each route; each table is served by a live DnsService with one scripted upstream per forward route and asked 10 names x RD{1,0} over TCP with type A, plus type DS (every 8th table: also NS, SOA, CNAME, PTR, TXT, AAAA, DNSKEY, RRSIG, HTTPS, CAA, 65280) -- the route depends on the name alone; octet folding: for every printable octet c the table {forward 'x<c>y.fold', forge-nxdomain 'fold'} asked for x<d>y.fold with d in {c, c^0x20, c+-1, upper, lower, c|0x80} (thorough: all 256 octets), forwarded iff d equals c up to the case of an ASCII letter; histories: nested suffixes on two servers, an enclosing name first answered by the shorter route's server (NXDOMAIN+SOA / NODATA+SOA / address), then three names under the longer route, which must reach the longer route's server. evaluations = queries; distinct_nontrivial = distinct written tables");
     rep.cov("exhaustive", true);
     rep.cov("tables", agg.executions);
     rep.cov("outcome_classes", json!(classes));
